@@ -691,3 +691,9 @@ def run(prog, rep, tier, snap):
     rep.rule("R10.7", "what the escape copier writes does not depend on where the line is cut", 7)
     rep.call(r10_7, prog, rep, "R10.7", ("cut",))
 READY = True
+
+# texts brought up to date with the rules above (they supersede the first versions at the top of the module)
+LEVEL_TEXT = LEVEL_TEXT + (" The escape copier, walked value-fixed over all strings of up to four byte classes and every cut, must write for the "
+                           "parts what it writes for the whole — it does not on the pinned tree (two known findings, one per class of byte in front "
+                           "of the cut); chunking independence of the parser as a whole is NOT decided.")
+TECHNIQUE = TECHNIQUE + "; value-fixed walks of the escape copier over byte classes x cuts"
